@@ -140,7 +140,8 @@ func zzFindCore(method string) {
 	mayFail := method == "index" || method == "rindex"
 	zzObserve("err", err != nil)
 	if mayFail {
-		zzAssertExcept((err != nil) == (want == -1), "C13.find.index_beyond_int32_accepted", zzNot(in32))
+		zzAssert(zzImplies(want == -1, err != nil), "C13."+method+".fails_if_absent")
+		zzAssertExcept(zzImplies(want != -1, err == nil), "C13.find.index_beyond_int32_accepted", zzNot(in32))
 	} else {
 		zzAssertExcept(err == nil, "C13.find.index_beyond_int32_accepted", zzNot(in32))
 	}
@@ -292,7 +293,8 @@ func zzH13_list_index() {
 		want = zzIteI64(hit, int64(p), want)
 	}
 	zzObserve("err", err != nil)
-	zzAssertExcept((err != nil) == (want == -1), "C13.find.index_beyond_int32_accepted", zzNot(in32))
+	zzAssert(zzImplies(want == -1, err != nil), "C13.list_index.fails_if_absent")
+	zzAssertExcept(zzImplies(want != -1, err == nil), "C13.find.index_beyond_int32_accepted", zzNot(in32))
 	if err != nil {
 		return
 	}
